@@ -172,13 +172,18 @@ def main(argv=None):
         violations.append((None, sf['replay'], sf.get('confirmed', True)))
     # witness search: (a) functions with undecided or unconfirmed obligations - look for a failing input on
     # the real code; (b) every function under contract - cross-check engine semantics vs the compiled code
-    n_cross = plan.get('crosscheck', {}).get(tier, 8 if tier == 'quick' else 60)
+    n_cross = plan.get('crosscheck', {}).get(tier, 6 if tier == 'quick' else 60)
     need = {}
     for ob in unknown:
         need.setdefault((ob.func, json.dumps(ob.config or None, sort_keys=True)), []).append(ob)
     for ob, path, confirmed in violations:
         if ob is not None and not confirmed:
             need.setdefault((ob.func, json.dumps(ob.config or None, sort_keys=True)), []).append(ob)
+    # functions the engine could not execute (construct outside the subset after a source change): look for a
+    # failing input of their contract on the real code; none found = still undecided
+    for t, cfg, why in undecided:
+        if t in reg.by_target:
+            need.setdefault((t, json.dumps(cfg or None, sort_keys=True)), [])
     wit_stats = {'functions': 0, 'evaluations': 0, 'witnesses': 0, 'skipped': []}
     witnessed_funcs = set()
     seen_fc = set()
@@ -189,7 +194,7 @@ def main(argv=None):
     bounded = []
     for t in functions:
         c = reg.by_target[t]
-        for cfg in (c.configs or [None])[:3]:
+        for cfg in (c.configs or [None])[:2]:
             key = (t, json.dumps(cfg or None, sort_keys=True))
             if key not in need:
                 targets.append((key, n_stand if c.stand_in else n_cross))
@@ -198,6 +203,7 @@ def main(argv=None):
                             'stand_in': f'contract evaluated at run time on the real code for {n_stand} generated inputs '
                                         f'satisfying requires (never counted in discharged)'})
     extra_cov['bounded'] = bounded
+    jobs_w = []
     for (t, cfgs), n in targets:
         if (t, cfgs) in seen_fc or n <= 0:
             continue
@@ -205,11 +211,22 @@ def main(argv=None):
         c = reg.by_target.get(t)
         if c is None or c.trusted:
             continue
-        cfg = json.loads(cfgs)
+        jobs_w.append((t, cfgs, n))
+
+    def _search(job):
+        t, cfgs, n = job
+        c = reg.by_target[t]
         try:
-            r = witness.search(c, cfg, n, seed + 1)
+            return job, witness.search(c, json.loads(cfgs), n, seed + 1,
+                                       budget_s=(None if (t, cfgs) in need else (10 if tier == 'quick' else 120))), None
         except Exception as e:
-            wit_stats['skipped'].append(f'{t}: {type(e).__name__}: {str(e)[:120]}')
+            return job, None, f'{t}: {type(e).__name__}: {str(e)[:120]}'
+
+    results_w = _parallel_map(_search, jobs_w, min(8, a.jobs))
+    for (t, cfgs, n), r, err in results_w:
+        cfg = json.loads(cfgs)
+        if err is not None or r is None:
+            wit_stats['skipped'].append(err or f'{t}: no result')
             continue
         wit_stats['functions'] += 1
         wit_stats['evaluations'] += r['evaluated']
@@ -229,6 +246,7 @@ def main(argv=None):
             violations.append((doc_ob, path, True))
     # obligations of a function for which a confirmed failing input exists are explained by it
     unknown = [o for o in unknown if (o.func, json.dumps(o.config or None, sort_keys=True)) not in witnessed_funcs]
+    undecided = [u for u in undecided if (u[0], json.dumps(u[1] or None, sort_keys=True)) not in witnessed_funcs]
     extra_cov['contract_runtime_crosscheck'] = wit_stats
     rc = 0
     for ob, kf in known_hits:
@@ -256,6 +274,53 @@ def main(argv=None):
     print(f"[{prop} {tier}] obligations={len(obs)} discharged={n_ok} failed={len(real_fail)} unknown={len(unknown)} "
           f"undecided_functions={len(undecided)} wall={time.time() - t0:.1f}s exit={rc}")
     return rc
+
+
+def _parallel_map(fn, items, nproc):
+    """fork-based map (the items need z3 objects living in this process, so no pickling of inputs)"""
+    import multiprocessing as mp
+    if not items:
+        return []
+    if nproc <= 1 or len(items) == 1:
+        return [fn(x) for x in items]
+    ctx = mp.get_context('fork')
+    out = [None] * len(items)
+    pending = list(enumerate(items))
+    running = []
+    while pending or running:
+        while pending and len(running) < nproc:
+            i, item = pending.pop(0)
+            rd, wr = ctx.Pipe(duplex=False)
+
+            def work(conn, item=item):
+                try:
+                    conn.send(fn(item))
+                except BaseException as e:  # noqa
+                    conn.send((item, None, f'{type(e).__name__}: {e}'))
+                finally:
+                    conn.close()
+            p = ctx.Process(target=work, args=(wr,))
+            p.start()
+            wr.close()
+            running.append((i, p, rd))
+        still = []
+        for i, p, rd in running:
+            if rd.poll(0.05):
+                try:
+                    out[i] = rd.recv()
+                except EOFError:
+                    out[i] = (items[i], None, 'worker died')
+                p.join()
+            elif not p.is_alive():
+                try:
+                    out[i] = rd.recv() if rd.poll(0.1) else (items[i], None, 'worker died')
+                except EOFError:
+                    out[i] = (items[i], None, 'worker died')
+                p.join()
+            else:
+                still.append((i, p, rd))
+        running = still
+    return out
 
 
 def match_known(prop, ob, known):
